@@ -4,6 +4,7 @@ import (
 	"context"
 	"errors"
 	"fmt"
+	"github.com/openconfig/gnmi/proto/gnmi_ext"
 	"runtime"
 	"runtime/debug"
 	"slices"
@@ -275,7 +276,7 @@ type subState struct {
 	stallStart  int64      // virtual time the currently parked Send began (from the stream)
 	timedOut    bool
 	first       *pb.SubscribeRequest // what is sent first when spec.First says so (nil with "eof": nothing is)
-	flooded     bool // poll triggers were issued while it was not reading (pollflood): the C05 round clauses do not apply
+	flooded     bool                 // poll triggers were issued while it was not reading (pollflood): the C05 round clauses do not apply
 }
 
 type qitem struct {
@@ -303,7 +304,7 @@ type writer struct {
 	step   int
 	alive  []*subState // subscriptions that were running when the operation began
 	n      *pb.Notification
-	cb     bool // parked inside the feed callback
+	cb     bool   // parked inside the feed callback
 	via    string // noti: the target through whose entry point it is written ("" = the one its prefix names)
 }
 
@@ -561,25 +562,33 @@ func (w *world) newSub(i int, spec SubSpec) *subState {
 			}
 		}
 	}
+	var dressExt []*gnmi_ext.Extension
 	if spec.Dress > 0 {
 		// fields the server does not implement: whatever they hold, the request behaves like the plain one
 		d := uint64(spec.Dress)
 		next := func(n uint64) uint64 { d = d*6364136223846793005 + 1442695040888963407; return (d >> 33) % n }
 		sl.Qos = &pb.QOSMarking{Marking: uint32(next(64))}
 		sl.AllowAggregation = next(2) == 0
-		sl.Encoding = pb.Encoding(next(5))
+		sl.Encoding = pb.Encoding([]int32{0, 1, 2, 3, 4, 9}[next(6)])
+		if next(3) == 0 {
+			dressExt = []*gnmi_ext.Extension{{Ext: &gnmi_ext.Extension_RegisteredExt{RegisteredExt: &gnmi_ext.RegisteredExtension{Id: 7, Msg: []byte("x")}}},
+				{Ext: &gnmi_ext.Extension_History{History: &gnmi_ext.History{Request: &gnmi_ext.History_SnapshotTime{SnapshotTime: 5}}}}}[:1+next(2)]
+		}
 		if next(3) == 0 {
 			sl.UseModels = []*pb.ModelData{{Name: "m", Organization: "o", Version: "1"}}
 		}
 		for _, sub := range sl.Subscription {
-			sub.Mode = pb.SubscriptionMode(next(3))
+			if sub.Path != nil && next(4) == 0 {
+				sub.Path.Target = []string{"elsewhere", "*", "t0"}[next(3)] // the target of a subscription path is the prefix's: this one is never read
+			}
+			sub.Mode = pb.SubscriptionMode([]int32{0, 1, 2, 0, 1, 2, 3, -1, 100}[next(9)])
 			sub.SampleInterval = []uint64{0, 1, 1_000_000_000, 1 << 62}[next(4)]
 			sub.SuppressRedundant = next(2) == 0
 			sub.HeartbeatInterval = []uint64{0, 1, 60_000_000_000}[next(3)]
 		}
 		w.st.dressed = true
 	}
-	s.req = &pb.SubscribeRequest{Request: &pb.SubscribeRequest_Subscribe{Subscribe: sl}}
+	s.req = &pb.SubscribeRequest{Request: &pb.SubscribeRequest_Subscribe{Subscribe: sl}, Extension: dressExt}
 	switch spec.First {
 	case "poll":
 		s.first = &pb.SubscribeRequest{Request: &pb.SubscribeRequest_Poll{Poll: &pb.Poll{}}}
